@@ -483,4 +483,80 @@ theorem midC_ext (H : RemHyp c w addrs own' X) (H' : RemHyp c w addrs own' (X ++
 
 end ext
 
+-- ------------------------------------------------------------------ the extension step of phase 2
+
+/-- `MidU` reads the parameters, the keystore table and the wallet list of the context only -/
+theorem midU_ctx {c c' : Ctx} {w : Wid} {addrs : List Addr} {own' : Own} {s : Store} {X : List Block} {U : Book}
+    (hp : c'.p = c.p) (ho : c'.own = c.own) (hw : c'.wallets = c.wallets) (h : MidU c w addrs own' s X U) :
+    MidU c' w addrs own' s X U := by
+  obtain ⟨p, own, ws, nd⟩ := c
+  obtain ⟨p', own'', ws'', nd'⟩ := c'
+  simp only at hp ho hw
+  subst hp ho hw
+  exact ⟨h.nodup, h.credits, h.debits, h.debitsW, h.unspent, h.game, h.txrecs, h.txrecsW, h.blocks, h.bal, h.sync,
+    h.syncedTo, h.pendOff⟩
+
+section
+variable {limit : Nat} {c : Ctx} {w : Wid} {addrs : List Addr} {own' : Own} {G : Block} {x : ISt}
+
+/-- **one more block between two removal steps**: the node announces `b` on top of the chain the follower stored.  The
+    follower's database transaction succeeds on the real store because it succeeds on the ghost store
+    (`connect_scanJS'`, `filterBlock_sim`), and the two-store invariant holds for the longer chain. -/
+theorem phase2_notify_ext {n : Node} {b : Block} (hS : Static c w addrs own') (hP : Phase2 c w addrs own' G x)
+    (hN : NodeOK c.own G x.node.known n b) (hext : n.chain = x.node.chain ++ [b]) (hprev : b.prev = x.v.best.hash) :
+    ∃ x', istep limit c w addrs x (.notify n b) = some x' ∧ Phase2 c w addrs own' G x' := by
+  obtain ⟨g, k, hG, hSub, hM, hcf⟩ := hP
+  have hKN := hS.keys
+  have hkn : ∀ y ∈ x.node.chain, AMap.get n.known y.id = some y := fun y hy => hN.grows _ _ (hcf.known y hy)
+  have H : RemHyp { c with node := n } w addrs own' x.node.chain :=
+    ⟨hS.minus, hS.managed, hS.ne, hcf.valid, hcf.good.heights, hkn⟩
+  have H' : RemHyp { c with node := n } w addrs own' (x.node.chain ++ [b]) :=
+    ⟨hS.minus, hS.managed, hS.ne, by rw [← hext]; exact hN.valid, by rw [← hext]; exact hN.good.heights,
+      by rw [← hext]; exact hN.known⟩
+  have hbh : b.height = x.node.chain.length := by
+    apply hN.good.heights
+    rw [hext]; simp
+  have hSg : ScanJS { c with node := n } w g x.node.chain k :=
+    scanJS_ctx (c := { c with node := x.node }) rfl rfl rfl hG.scan
+  have hMn : MidC { c with node := n } w addrs own' x.s x.node.chain
+      (joinBookK { c with node := n } w own' x.node.chain k) :=
+    midU_ctx (c := { c with node := x.node }) rfl rfl rfl hM
+  have hnr : (readyWallets g c.wallets).contains w = false := notReady_of_removed hG.flag rfl
+  obtain ⟨g', conf, hfg, hSg', hstg, _⟩ := connect_scanJS' (c := { c with node := n }) hKN
+    ⟨hN.valid, hN.good.heights⟩ (show n.chain = x.node.chain ++ b :: [] from hext) hSg hnr hG.len hG.allReady
+    hG.nonempty
+  have hready : readyWallets x.s c.wallets = readyWallets g c.wallets := readyWallets_congr hSub.status c.wallets
+  have hSub0 := sub_of_subG hSub
+  have hFs : AMap.get x.s.blocks b.height = none := by
+    have := hM.blocks b.height
+    rw [show AMap.get x.s.blocks b.height = _ from this, hbh]
+    exact blockRecOf_none (Nat.le_refl _)
+  obtain ⟨s', hfs, hSub', hNew, hns', hng', _, f_tx, f_blk, f_deb, f_cred, gc1, gc2, gf_tx, _, gf_deb⟩ :=
+    filterBlock_sim (c := { c with node := n }) (ready := readyWallets g c.wallets) hSub0 hG.nodup hM.nodup
+      (ghost_fresh H hKN hG.len hSg hbh) hFs (ghost_coinsOK H hKN hSg hnr)
+      (ghost_find H hKN hG.len hSg hG.nodup hext hN.valid)
+      (real_own H hKN hG.len hSg hG.nodup hM.nodup hMn.credits hext hN.valid hnr)
+      (ready_not_addrs H hnr) hfg
+  obtain ⟨v', hpb, hv'⟩ := processBlock_ext (c := { c with node := n }) (v := x.v) hprev
+    (show filterBlock _ x.s (readyWallets x.s c.wallets) b = _ by rw [hready]; exact hfs)
+  have hnr' : (readyWallets g' c.wallets).contains w = false := by rw [readyWallets_congr hstg]; exact hnr
+  have hM' := midC_ext H H' hKN hG.len hbh hSg hSg' hnr' hng' hMn hSub0 hSub' hNew hns' f_tx f_blk f_deb f_cred gc1 gc2
+    gf_tx gf_deb
+  refine ⟨{ x with s := s', v := v', node := n }, ?_, g', k, ⟨?_, ?_, ?_, ?_, ?_, hng'⟩, subG_of_sub hSub', ?_,
+    ⟨?_, hcf.fin, hN.good, hN.valid, hN.genesis, hN.known⟩⟩
+  · simp only [istep, hcf.fin, hpb, Bool.false_eq_true, if_false, if_true]
+  · show k + 1 ≤ n.chain.length
+    rw [hext, List.length_append]; have := hG.len; omega
+  · show ScanJS { c with node := n } w g' n.chain k
+    rw [hext]; exact hSg'
+  · rw [hstg]; exact hG.flag
+  · rw [readyWallets_congr hstg]; exact hG.allReady
+  · rw [readyWallets_congr hstg]; exact hG.nonempty
+  · show MidC { c with node := n } w addrs own' s' n.chain (joinBookK { c with node := n } w own' n.chain k)
+    rw [hext]; exact hM'
+  · show v'.best = tipMeta n.chain
+    rw [hext, tipMeta_snoc]; exact hv'
+
+end
+
 end MW.Lemmas.RemoveInterleave
